@@ -322,7 +322,10 @@ def gl3(prog):
         errs = []
         x = strip(x)
         if not (mir.is_call(x, "unwrap") and x[2][0][0] == "field" and x[2][0][2] == "ptr"):
-            errs.append("returned value is not the stored pointer of a slot: %s" % show(x))
+            from_helper = any(mir.is_call(y) and (y[1].local or getattr(y[1], "res_local", False)) and y[1].name not in ("alloc",)
+                              for y in [x] + list(mir.subterms(x)))
+            errs.append(("?the found pointer is handed back by a helper (%s): the guards in front of it are not read here" if from_helper else
+                         "returned value is not the stored pointer of a slot: %s") % show(x)[:70])
         else:
             slot = x[2][0][1]
             e_hash = true_edges(fn, lambda c: is_eq(c, lambda a: a == hashp,
@@ -334,8 +337,8 @@ def gl3(prog):
             if not e_eq or reachable_without(fn, b, e_eq):
                 errs.append("`return found` is reachable without `equality_by_hash` or `*found == elem` being true "
                             "(an unequal node with a colliding hash would be returned)")
-        out.append(inst("GL", "%s:GL3:return-found" % fn.npath, VIOLATION if errs else OK, fn, None,
-                        "; ".join(errs) if errs else "found returned only if hash == cur.hash && (by_hash || *found == elem)"))
+        out.append(inst("GL", "%s:GL3:return-found" % fn.npath, verdict_of(errs), fn, None,
+                        errtext(errs) if errs else "found returned only if hash == cur.hash && (by_hash || *found == elem)"))
     # allocated entries are stored with the request's hash
     errs = []
     news = [cs for cs in te.calls if cs.callee.name == "new" and "HashTableElement" in cs.callee.key()]
